@@ -60,17 +60,36 @@ func VerifC19Locator() {
 		}
 		p := h.ancestorAt(h.indexOfHash(h.repo.LastHash()), fork)
 		i := len(h.hdr)
-		hd := &wire.BlockHeader{Version: 1, Timestamp: uint32(1600000000 + i), Bits: verifBitsTable[0], Nonce: uint32(5000 + i)}
+		weight := 0
+		if s == 0 && verifParam("reorg", 0) == 1 && nondetBool("side-overtakes") {
+			// one heavy header makes the side branch the most-work chain (a reorg that no Clean has
+			// consolidated yet: the former best chain is now a tracked branch based at genesis)
+			weight = 2
+			verifReach("reorged")
+		}
+		hd := &wire.BlockHeader{Version: 1, Timestamp: uint32(1600000000 + i), Bits: verifBitsTable[weight], Nonce: uint32(5000 + i)}
 		hd.MerkleRoot[0] = byte(i)
 		hd.PrevBlock = h.hash[p]
 		idx := h.record(hd, p)
 		if err := h.repo.ProcessHeader(h.ctx, hd); err != nil {
+			if fork < h.repo.longest.PrunedLowestHeight() {
+				// the fork point is below the retained depth (pruned from memory): no branch can start there
+				verifAssume(false)
+			}
 			verifAssert(false, "side-branch-refused")
 			return
 		}
 		sideBase = append(sideBase, idx)
 	}
 	tip := h.indexOfHash(h.repo.LastHash())
+	// after a reorg the tip is on the side branch: the former best chain is a tracked branch whose
+	// base is genesis, and the chain height is the side branch's
+	TH := h.height[tip]
+	for k, b := range sideBase {
+		if h.isAncestor(b, tip) {
+			sideBase[k] = 0
+		}
+	}
 	// splits: 0-2 configured at symbolic heights; BeforeHash is ours at height-1 (as on mainnet) or foreign
 	nSplit := pick("splits", 3)
 	var splits Splits
@@ -125,17 +144,23 @@ func VerifC19Locator() {
 				isSplit = true
 			}
 		}
+		isBase := false
+		for _, b := range sideBase {
+			if b == i {
+				isBase = true
+			}
+		}
 		switch {
 		case i >= 0 && h.isAncestor(i, tip):
 			bestSeen++
-			if !isSplit {
+			if !isSplit && !isBase {
 				bestNonSplit++
 			}
 			if bestSeen == 1 {
-				if H == 0 {
+				if TH == 0 {
 					verifAssert(i == 0, "locator-at-height-0-not-genesis")
 				} else {
-					verifAssert(h.height[i] == H-1, "locator-does-not-start-with-tip-parent")
+					verifAssert(h.height[i] == TH-1, "locator-does-not-start-with-tip-parent")
 				}
 			}
 			verifAssert(h.height[i] < lastHeight, "locator-best-chain-hashes-not-newest-first")
@@ -143,12 +168,6 @@ func VerifC19Locator() {
 		case isSplit:
 			// a configured chain-split fork point that is not on our chain
 		case i >= 0:
-			isBase := false
-			for _, b := range sideBase {
-				if b == i {
-					isBase = true
-				}
-			}
 			verifAssert(isBase, "locator-contains-side-branch-header-that-is-not-a-branch-base")
 		default:
 			verifAssert(false, "locator-contains-unknown-hash")
@@ -160,7 +179,7 @@ func VerifC19Locator() {
 	// a peer on a chain sharing a prefix with ours (up to shared height) answers per protocol:
 	// first locator hash it knows -> the header after it on its chain
 	shared := int(nondetU8("shared"))
-	verifAssume(shared <= H)
+	verifAssume(shared <= TH)
 	var reply *wire.BlockHeader
 	for _, x := range loc {
 		i := h.indexOfHash(x)
@@ -176,8 +195,13 @@ func VerifC19Locator() {
 		}
 	}
 	if reply != nil {
+		// "connects to a header we hold": the repository attaches it, or (when the shared hash is
+		// below the retained depth) still knows the header it builds on
 		err := h.repo.ProcessHeader(h.ctx, reply)
-		verifAssert(errors.Cause(err) != ErrUnknownHeader, "same-chain-peer-reply-does-not-connect")
+		verifAssert(errors.Cause(err) != ErrUnknownHeader || h.repo.HashHeight(reply.PrevBlock) >= 0, "same-chain-peer-reply-does-not-connect")
+		if errors.Cause(err) == ErrUnknownHeader {
+			verifReach("peer-replied-on-pruned-history")
+		}
 		verifReach("peer-replied")
 	} else {
 		// no locator hash known to the peer: per protocol it answers from the block after genesis
